@@ -19,7 +19,7 @@ func gbInfer(w *World) {
 	type key struct{ pkg, st, field string }
 	type cnt struct {
 		locked, unlocked, wUnlocked int
-		where                      []string
+		where                       []string
 	}
 	stats := map[key]*cnt{}
 	mutexes := map[string][]string{} // pkg.struct -> mutex fields
